@@ -281,11 +281,17 @@ func genC11(cs *CaseSet, rng *Rng, tier string, dir string) {
 		if h%4 != 0 {
 			forced = []int{0, 13, 10, 7} // list, rename, move, delete - aimed at the file with forks while it exists
 		}
+		if h%4 == 1 {
+			forced = append(forced, 18, 0) // an alias of a name that does not exist, made in its own folder, then the list
+		}
 		for k := 0; k < nOps; k++ {
 			items, name := pickEntry()
 			forcedR := -1
 			if k < len(forced) {
 				forcedR = forced[k]
+				if forcedR == 18 {
+					items, name = nil, []byte("ghost")
+				}
 				for _, e := range c11Snapshot(root) {
 					if n := e.path[len(e.path)-1]; e.kind == 1 && bytes.HasPrefix(n, []byte("forked")) {
 						items, name = e.path[:len(e.path)-1], n
@@ -307,6 +313,9 @@ func genC11(cs *CaseSet, rng *Rng, tier string, dir string) {
 			switch {
 			case r < 4: // list
 				d := pickDir()
+				if forcedR == 0 {
+					d = nil
+				}
 				res, st := call(mobius.HandleGetFileNameList, hotline.TranGetFileNameList, pathField(d)...)
 				var rows []byte
 				if st == 0 {
@@ -379,6 +388,9 @@ func genC11(cs *CaseSet, rng *Rng, tier string, dir string) {
 				obs = append(obs, withTree(st))
 			case r < 19: // alias
 				d := pickDir()
+				if forcedR == 18 {
+					d = nil
+				}
 				_, st := call(mobius.HandleMakeAlias, hotline.TranMakeFileAlias, append([]hotline.Field{nameF, hotline.NewField(hotline.FieldFileNewPath, encodePath(d))}, pathField(items)...)...)
 				ops = append(ops, mkOp(8, "alias", c11EncPath(items), name, c11EncPath(d)))
 				obs = append(obs, withTree(st))
